@@ -88,6 +88,7 @@ pub struct Out {
     imp: BufWriter<File>,
     idx: BufWriter<File>,
     cur_desc: String,
+    cur_origin: String,
     cur_start: u64,
     /// "gen" for generated cases, "corpus:<file>" while replaying a corpus file
     pub origin: String,
@@ -114,6 +115,7 @@ impl Out {
             imp: BufWriter::new(File::create(dir.join("impl.txt")).unwrap()),
             idx: BufWriter::new(File::create(dir.join("cases.txt")).unwrap()),
             cur_desc: String::new(),
+            cur_origin: "gen".into(),
             cur_start: 0,
             origin: "gen".into(),
             lines: 0,
@@ -139,6 +141,7 @@ impl Out {
         self.cur_nontrivial = false;
         self.cur_text.clear();
         self.cur_desc.clear();
+        self.cur_origin = self.origin.clone();
         self.cur_start = self.lines + 1;
         self.line(op, answer);
     }
@@ -173,7 +176,7 @@ impl Out {
         if self.cases == 0 {
             return;
         }
-        writeln!(self.idx, "{}\t{}\t{}", self.cur_start, self.origin, self.cur_desc).unwrap();
+        writeln!(self.idx, "{}\t{}\t{}", self.cur_start, self.cur_origin, self.cur_desc).unwrap();
         let h = std::mem::take(&mut self.cur_hash).finish();
         if self.cur_nontrivial && self.distinct.insert(h) {
             self.nontrivial_distinct += 1;
@@ -201,7 +204,7 @@ impl Out {
                 case: self.cases,
                 line: self.cur_start,
                 desc: self.cur_desc.clone(),
-                origin: self.origin.clone(),
+                origin: self.cur_origin.clone(),
                 clause: clause.to_string(),
                 feature: feature.to_string(),
                 detail,
